@@ -161,6 +161,67 @@ theorem noPending_after_runFor (c : Cfg) (hb : PosBeh c.beh) (interval : Nat) (f
     (by intro pf hpf u hu; rw [hnp pf hpf] at hu; cases hu) hinv hpos
   exact ⟨noPending_of_bnd (s.gt + interval) s' h.2.1 h.1 h.2.2, h.2.1⟩
 
+/-- a process that is at the global time with nothing pending is left alone by a forced pass at the end time -/
+theorem poll_complete_skips (beh : Beh) (gt : Int) (v : Store) (p : Pid) (f : Front)
+    (ht : f.time = gt) :
+    poll beh gt gt true v p f = { front := f, contrib := none, quiet := false, evs := [] } := by
+  unfold poll
+  simp [ht]
+
+/-- **A zero-length forced completion leaves a complete engine alone** (fix F50): when every process
+stands at the global time, `update(0)` invokes nothing (in particular no `next_update` with a zero
+timestep), applies nothing, emits nothing and runs no step: clock, fronts, store and log are unchanged,
+and the engine is still complete. -/
+theorem update_zero_is_noop (c : Cfg) (s : St)
+    (hidle : ∀ pf ∈ s.fronts, pf.2.time = s.gt) :
+    ∃ s', runFor c 0 true s = some s' ∧ s'.gt = s.gt ∧ s'.fronts = s.fronts ∧ s'.store = s.store ∧
+      s'.log = s.log ∧ s'.stepCalls = s.stepCalls := by
+  have hos : s.fronts.map (fun pf => (pf.1, poll c.beh s.gt s.gt true s.store pf.1 pf.2)) =
+      s.fronts.map (fun pf => (pf.1, ({ front := pf.2, contrib := none, quiet := false, evs := [] } : Outcome))) := by
+    apply List.map_congr_left
+    intro pf hpf
+    rw [poll_complete_skips _ _ _ _ _ (hidle pf hpf)]
+  have hfs : fullStep (s.fronts.map (fun pf => (pf.1,
+      ({ front := pf.2, contrib := none, quiet := false, evs := [] } : Outcome)))) = none := by
+    unfold fullStep
+    generalize s.fronts = l
+    induction l with
+    | nil => rfl
+    | cons x xs ih => simpa [List.foldl, minOpt] using ih
+  have hne : nextEvent s.gt s.gt (s.fronts.map (fun pf => (pf.1, pf.2))) = s.gt := by
+    apply nextEvent_eq_end
+    intro pf hpf
+    simp at hpf
+    have := hidle pf hpf
+    omega
+  have hiter : iter c s.gt true { s with emitTime := s.gt + c.emitStep } =
+      { s with emitTime := s.gt + c.emitStep } := by
+    unfold iter
+    simp only [hos, hfs, List.map_map, Function.comp_def, hne]
+    simp [settle, settleEv]
+  refine ⟨{ s with emitTime := s.gt + c.emitStep }, ?_, rfl, rfl, rfl, rfl, rfl⟩
+  unfold runFor
+  simp only [Int.add_zero, Nat.zero_add, Int.natCast_zero]
+  unfold loop
+  simp only [Bool.or_true, ite_true, hiter, decide_true, Bool.and_self]
+  unfold loop
+  simp
+
+/-- non-vacuity: `update(3); update(0)` equals `update(3)` on the F1 witness below, and after
+`run_for(2); run_for(2)` with timesteps 2 and 5 the call `update(0)` hands the lagging process the 4 time
+units it is behind and nothing to the other one -/
+def lagCfg : Cfg :=
+  { beh := { ts := fun p _ _ => if p = ["a"] then 2 else 5, cond := fun _ _ _ _ => true,
+             upd := fun p _ ts _ => [(String.join p, ts)] },
+    sb := { cond := fun _ _ _ => true, upd := fun _ _ _ => [] },
+    emitEvery := true, emitStep := 1, flagged := [] }
+
+example :
+    ((runCalls lagCfg [(2, false), (2, false), (0, true)] (init lagCfg 0 [["a"], ["b"]] [] [("a", 0), ("b", 0)])).map
+      (fun s => (readVar s.store "a", readVar s.store "b", checkComplete s, handed ["a"] s.log, handed ["b"] s.log)))
+      = some (4, 4, true, 4, 4) := by
+  rfl
+
 /-- non-vacuity (the F1 witness): timestep 3, `update(10)`: the last call gets timestep 1 and the
 engine is drained -/
 def exCfg : Cfg :=
